@@ -17,6 +17,22 @@ def corpus_case(args):
     return {"path": str(path), "answers": runner.answers(out), "expect": expect[0] if expect else None}
 
 
+def _dl_case(args):
+    import certify
+    i, seed, binary = args
+    rng = random.Random(f"c02-dl-{seed}-{i}")
+    logic = ["QF_IDL", "QF_RDL", "QF_IDL", "QF_UFIDL"][i % 4]
+    f = [gen.dl_chain, gen.dl_chain, gen.dl_paths][i % 3]
+    p, asserts, script = f(logic, rng)
+    out, err, rc = runner.run_opensmt(binary, script, None, timeout=10)
+    ans = runner.answers(out)
+    res = {"idx": i, "logic": logic, "shape": f.__name__, "script": script, "answer": ans[0] if ans and rc != "timeout" else "none", "verdict": None,
+           "embedding": {"QF_IDL": "QF_LIA", "QF_RDL": "QF_LRA", "QF_UFIDL": "QF_UFLIA"}[logic]}
+    if res["answer"] == "sat":
+        res["verdict"] = certify.verdict(p.decls, [gen.smt(a) for a in asserts], f"(set-logic {res['embedding']})", binary=binary, timeout=15)
+    return res
+
+
 def run(tier):
     chk = common.Check("C02", tier)
     chk.lean_obligations(THEOREMS)
@@ -132,6 +148,21 @@ def run(tier):
             chk.violation("sat-without-model", f"{pr['what']}; external verdict {ext} ({c['logic']})",
                           {"script": c["script"], "problem": pr, "external_verdict": ext, "impl_stdout": r.get("stdout")},
                           match_key=c03.classify(pr, c))
+    # (c) difference-logic graph shapes: every sat answer of the IDL / RDL solvers is attacked through the embedding logic (the
+    # same assertions under QF_LIA / QF_LRA, decided by Simplex): a refutation there that the Lean machine accepts contradicts it
+    with mp.Pool(min(common.JOBS, 14)) as pool:
+        dres = pool.map(_dl_case, [(i, chk.seed, binary) for i in range(360 if tier == "quick" else 8000)], chunksize=4)
+    dl_sat = dl_refuted = 0
+    for r in dres:
+        dl_sat += 1 if r["answer"] == "sat" else 0
+        chk.case(key=("dl", r["idx"], r["answer"]), nontrivial=r["answer"] in ("sat", "unsat"),
+                 sample={"logic": r["logic"], "shape": r["shape"], "answer": r["answer"]} if r["idx"] < 3 else None)
+        chk.obligation(r["verdict"] != "unsat-certified")
+        if r["verdict"] == "unsat-certified":
+            dl_refuted += 1
+            chk.violation("sat-answer", f"sat under {r['logic']}, but the same assertions are refuted under {r['embedding']} by a run the Lean machine accepts "
+                                        f"({r['shape']})", {"script": r["script"], "embedding_logic": r["embedding"]})
+    chk.notes["dl_shapes"] = {"cases": len(dres), "sat_answers_attacked": dl_sat}
     chk.assumptions = ["array logics excluded (no model printing)",
                        "completeness of the theory solvers' final check is certified per run by the validated model, not proved"]
     return chk.finish(rule="cases: corpus scripts with expected answers; traced runs (non-trivial = has a sat answer, accepted "
